@@ -143,6 +143,16 @@ def work(item):
         prog.append(("rule", gy, [(dj, False), (facts[0][0], False)]))
         utilities.append((gx, False, rng.choice([3, 6, 12])))
         utilities.append((gy, False, rng.choice([4, 8, 20])))
+    if seedstr.startswith("c21m/"):
+        # family with rewards only: every utility is a strictly positive reward on a positive atom, no decision carries a
+        # cost, and a rewarded atom depends NEGATIVELY on a decision (taking every decision is then not optimal)
+        utilities = [(u, False, abs(v) if v else 2) for u, _n, v in utilities if u not in [d for d, _ in decisions]]
+        seen = set()
+        utilities = [x for x in utilities if not (x[0] in seen or seen.add(x[0]))]
+        dk = rng.choice(decisions)[0]
+        gz = A("gz")
+        prog.append(("rule", gz, [(facts[0][0], False), (dk, True)]))
+        utilities.append((gz, False, rng.choice([6, 9, 15])))
     st = Stats()
     st["programs"] = 1
     text = dt_text(prog, values, decisions, utilities)
@@ -315,6 +325,7 @@ def main(tier, seed):
     n = 80 if tier == "quick" else 2500
     items = [("dt/%d/%d" % (seed, i), "c21/%s/%s" % (seed, i)) for i in range(n)]
     items += [("dt-gated/%d/%d" % (seed, i), "c21g/%s/%s" % (seed, i)) for i in range(n // 2)]
+    items += [("dt-rewards/%d/%d" % (seed, i), "c21m/%s/%s" % (seed, i)) for i in range(n // 2)]
     run.bounds = {"programs": len(items), "max_decisions": 4}
     for st in pmap(work, items, item_timeout=180):
         run.merge(st)
